@@ -153,6 +153,84 @@ example : predict [⟨3, 1, false⟩, ⟨7, 2, true⟩, ⟨4, 3, false⟩] 11 fa
     predict exCalls 11 true = .caught ∧
     predict exCalls 11 false ≠ .caught := by decide
 
+/-! ### errors that cross native re-entries (callbacks run by core-library functions) -/
+
+/-- No `try` anywhere: the trace across native re-entries is, entry by entry from the innermost,
+[adaptor creation frame]? ++ failing / native-call instruction ++ that entry's call sites,
+innermost first — for any number of entries and any depth inside each. -/
+theorem trace_order_native (segs : List Seg) (tr : List IFrame)
+    (h : ∀ s ∈ segs, s.failInTry = false ∧ ∀ c ∈ s.calls, c.inTry = false) :
+    predictSegs segs tr = .uncaught (tr ++ (segs.map segFrames).flatten) :=
+  C12L.trace_order_native segs tr h
+
+/-- eager callback (e.g. `fold`): the callback called at ip 4 of the function passed, fails at 0;
+the outer entry's native call is at ip 3 of a function called at ip 6 -/
+example :
+    let segs : List Seg := [{ calls := [⟨4, 0, false⟩], failIp := 0 },
+                            { calls := [⟨6, 0, false⟩], failIp := 3 }]
+    (∀ s ∈ segs, s.failInTry = false ∧ ∀ c ∈ s.calls, c.inTry = false) ∧
+    predictSegs segs [] = .uncaught [⟨0, 0⟩, ⟨0, 4⟩, ⟨0, 3⟩, ⟨0, 6⟩] := by decide
+
+/-- lazy adaptor (e.g. `each`) created at ip 2: its creation frame comes before the native call that
+consumed the iterator; distinct chunks, three entries -/
+example :
+    predictSegs [{ calls := [⟨4, 0, false⟩], failIp := 0 },
+                 { calls := [⟨6, 0, false⟩], failIp := 3, adaptorIp := some 2 }] []
+      = .uncaught [⟨0, 0⟩, ⟨0, 4⟩, ⟨0, 2⟩, ⟨0, 3⟩, ⟨0, 6⟩] ∧
+    predictSegs [{ calls := [⟨4, 5, false⟩, ⟨1, 6, false⟩], failIp := 9 },
+                 { calls := [⟨6, 2, false⟩], failIp := 3, adaptorIp := some 2 },
+                 { calls := [], failIp := 8 }] []
+      = .uncaught [⟨6, 9⟩, ⟨5, 1⟩, ⟨0, 4⟩, ⟨2, 2⟩, ⟨2, 3⟩, ⟨0, 6⟩, ⟨0, 8⟩] := by decide
+
+/-- One entry alone is `predict` (consistency with the single-entry model). -/
+theorem predictSegs_single (calls : List Call) (fault : Nat) (ft : Bool) :
+    predictSegs [{ calls := calls, failIp := fault, failInTry := ft }] [] = predict calls fault ft :=
+  C12L.predictSegs_single calls fault ft
+
+example : predictSegs [{ calls := exCalls, failIp := 11 }] []
+    = .uncaught [⟨3, 11⟩, ⟨2, 4⟩, ⟨1, 7⟩, ⟨0, 3⟩] := by decide
+
+/-- The staged mechanism on ONE shared stack (eager callbacks run on the same VM): the callback
+frame `b` has a barrier, the frames `gs ++ [root]` of the outer entry lie below it. The first
+unwinding stops at `b` with `t1` = `tr` ++ the call sites of `fs`/`b`; then (`call_and_run_function`
+pops `b`, the outer loop's `pop_call_stack_on_error` pushes the new top's instruction frame — its
+`retIp` — and continues) the second stage yields `tr` ++ the call sites of every frame below the top
+one down to and including `root`: the same as if `b` had been an ordinary call frame (last
+conjunct). -/
+theorem native_reentry_same_stack (allow : Bool) (fs gs : List Frame) (b root : Frame)
+    (below : List Frame) (tr : List IFrame)
+    (hfs : ∀ f ∈ fs, f.barrier = false ∧ (f.hasCatch && allow) = false)
+    (hb : b.barrier = true ∧ (b.hasCatch && allow) = false)
+    (hgs : ∀ f ∈ gs, f.barrier = false ∧ (f.hasCatch && allow) = false)
+    (hr : root.barrier = true ∧ (root.hasCatch && allow) = false) :
+    ∃ t1, unwindGo allow (fs ++ b :: (gs ++ root :: below)) tr = .uncaught t1 ∧
+      t1 = tr ++ ((fs ++ [b]).drop 1).map (fun g => (⟨g.chunk, g.retIp⟩ : IFrame)) ∧
+      (match gs ++ [root] with
+        | [] => True
+        | g :: rest =>
+          unwindGo allow (g :: (rest ++ below)) (t1 ++ [⟨g.chunk, g.retIp⟩])
+            = .uncaught (tr ++ ((fs ++ b :: (gs ++ [root])).drop 1).map
+                (fun g => (⟨g.chunk, g.retIp⟩ : IFrame)))) ∧
+      unwindGo allow (fs ++ { b with barrier := false } :: (gs ++ root :: below)) tr
+        = .uncaught (tr ++ ((fs ++ b :: (gs ++ [root])).drop 1).map
+            (fun g => (⟨g.chunk, g.retIp⟩ : IFrame))) :=
+  C12L.native_reentry_same_stack allow fs gs b root below tr hfs hb hgs hr
+
+/-- callback chunk 3 called from chunk 2 (the callback frame, barrier) at ip 4; below it the outer
+entry: chunk 1 (native call at ip 7) called from the root chunk 0 at ip 3 -/
+example :
+    let fs : List Frame := [⟨3, 0, false, false⟩]
+    let b : Frame := ⟨2, 4, false, true⟩
+    let gs : List Frame := [⟨1, 7, false, false⟩]
+    let root : Frame := ⟨0, 3, false, true⟩
+    (∀ f ∈ fs, f.barrier = false ∧ (f.hasCatch && true) = false) ∧
+    (b.barrier = true ∧ (b.hasCatch && true) = false) ∧
+    (∀ f ∈ gs, f.barrier = false ∧ (f.hasCatch && true) = false) ∧
+    (root.barrier = true ∧ (root.hasCatch && true) = false) ∧
+    unwindGo true (fs ++ b :: (gs ++ [root])) [⟨3, 11⟩] = .uncaught [⟨3, 11⟩, ⟨2, 4⟩] ∧
+    unwindGo true (gs ++ [root]) [⟨3, 11⟩, ⟨2, 4⟩, ⟨1, 7⟩]
+      = .uncaught [⟨3, 11⟩, ⟨2, 4⟩, ⟨1, 7⟩, ⟨0, 3⟩] := by decide
+
 /-! ## 4. excerpt arithmetic -/
 
 theorem excerpt_total (n : Nat) (sp : Span) (h : Guard n sp) : ∃ o, excerpt n sp = .ok o :=
